@@ -240,10 +240,15 @@ func donchianIntProp[T helper.Integer](name string, top int64) engine.AnyProp {
 		Gen: func(t *rapid.T) IntCase[T] {
 			c := IntCase[T]{Period: rapid.IntRange(1, 6).Draw(t, "period")}
 			n := rapid.IntRange(0, 30).Draw(t, "n")
+			if rapid.IntRange(0, 15).Draw(t, "quiet") == 7 {
+				// a long window over a quiet market: hundreds of equal prices at once
+				c.Period = rapid.SampledFrom([]int{100, 130, 200, 300}).Draw(t, "long_period")
+				n = c.Period + rapid.IntRange(0, 60).Draw(t, "extra")
+			}
 			cur := rapid.Int64Range(1, top).Draw(t, "v0")
 			for i := 0; i < n; i++ {
 				// flat runs, small steps, odd and even values
-				if rapid.IntRange(0, 2).Draw(t, "move") == 0 {
+				if rapid.IntRange(0, 2).Draw(t, "move") == 0 && (c.Period < 100 || rapid.IntRange(0, 5).Draw(t, "rare_move") == 3) {
 					cur += rapid.Int64Range(-3, 3).Draw(t, "d")
 				}
 				if cur < 1 {
@@ -358,7 +363,7 @@ func bitsLen(v int64) int {
 func props() []engine.AnyProp {
 	var ps []engine.AnyProp
 	ps = append(ps, accelIntProp[int32]("int32", 32), accelIntProp[int64]("int64", 64), accelIntProp[int]("int", 64))
-	ps = append(ps, donchianIntProp[int]("int", 1<<40), donchianIntProp[int64]("int64", 1<<40), donchianIntProp[int32]("int32", 1<<29), donchianIntProp[int16]("int16", 1<<13))
+	ps = append(ps, donchianIntProp[int]("int", 1<<40), donchianIntProp[int64]("int64", 1<<40), donchianIntProp[int32]("int32", 1<<29), donchianIntProp[int16]("int16", 1<<13), donchianIntProp[int8]("int8", 60))
 	for _, c := range claims {
 		ps = append(ps, prop(c))
 	}
